@@ -110,6 +110,9 @@ def r_loopstrip(prog, tier):
     for t in tests:
         if isinstance(t.owner, ast.While):
             ok, why = True, 'strips while the last character is a digit'
+        elif isinstance(t.owner, ast.If) and not t.loops and any(
+                isinstance(c, ast.Call) and unparse(c.func).split('.')[-1] == f.node.name for c in walk_own(f.node)):
+            ok, why = True, 'strips one digit and calls itself for the rest'
         elif isinstance(t.owner, ast.If) and not t.loops:
             ok, why = False, 'only one trailing digit is removed: fan-outs of 10 and more leave a digit on the label'
     if ok is None and any(isinstance(n, ast.Call) and isinstance(n.func, ast.Attribute) and n.func.attr == 'rstrip'
@@ -244,6 +247,29 @@ def r_literals(prog, tier):
                           '%s are in %s but not in %s: punctuation_symetrify still treats them as paired punctuation while '
                           'punctuation_verylow / punctuation_root / punctuation_delete no longer see punctuation in them'
                           % (missing[:6], small, big), construct='lit-nest:%s:%s' % (small, big)))
+    # the bracket names tell the brackets apart: `-NAME-` stands for NAME, and two different characters never share a name
+    try:
+        br = dict((nm, prog.const_value('trees', nm)) for nm in ('OPENING_BRACKETS', 'CLOSING_BRACKETS'))
+    except (Unrecognised, AnalysisError, Exception):
+        br = None
+    if br is not None and all(isinstance(v, dict) for v in br.values()):
+        bad = []
+        seen = {}
+        for tn in ('OPENING_BRACKETS', 'CLOSING_BRACKETS'):
+            for k, v in br[tn].items():
+                if isinstance(k, str) and len(k) > 2 and k.startswith('-') and k.endswith('-'):
+                    if k[1:-1] != v:
+                        bad.append('%s maps %r to %r' % (tn, k, v))
+                elif isinstance(k, str) and len(k) == 1:
+                    if v in seen and seen[v] != k:
+                        bad.append('%r and %r are both written as %r: a reader of the output cannot tell them apart' % (seen[v], k, v))
+                    seen.setdefault(v, k)
+        obs.append(Ob('R-LITERALS', 'trees.BRACKETNAMES', 'every bracket character has a name of its own', not bad,
+                      '%d characters, %d names' % (len(seen), len(set(seen))) if not bad else '; '.join(bad[:3]),
+                      construct='lit-brnames'))
+    else:
+        obs.append(Ob('R-LITERALS', 'trees.BRACKETNAMES', 'every bracket character has a name of its own', None,
+                      'the bracket tables are not literals this rule can evaluate', construct='lit-brnames'))
     return obs, {}
 
 
@@ -349,7 +375,7 @@ def r_symtarget(prog, tier):
     cfg = f.cfg
     evs = [e for e in link_events(prog, f) if e.kind == 'ATT']
     if not evs:
-        raise Unrecognised('punctuation_symetrify attaches nothing')
+        raise Unrecognised('punctuation_symetrify attaches nothing', partial=obs)
     for e in evs:
         loops = cfg.nodes[e.node].loops
         tok = None
@@ -376,6 +402,16 @@ def r_symtarget(prog, tier):
                              'token `%s`' % (q, tok)
         obs.append(Ob('R-SYMTARGET', f.fq, 'a moved paired-punctuation token lands in the constituent of its partner (`%s`)'
                       % unparse(e.ast)[:50], ok, why, construct='symtarget:' + unparse(e.ast)[:50], line=cfg.nodes[e.node].lineno))
+    # what is pulled into the phrase is a paired-punctuation token, nothing else
+    from .tree_rules import punct_filtered
+    for d_ in [e for e in link_events(prog, f) if e.kind == 'DET']:
+        okp = punct_filtered(f, d_.x, d_.node, ('PAIRPUNCT',))
+        wide = None if okp else punct_filtered(f, d_.x, d_.node, ('PUNCT',))
+        obs.append(Ob('R-SYMTARGET', f.fq, 'only paired punctuation is pulled into a phrase (`%s`)' % unparse(d_.ast)[:50],
+                      True if okp else (False if wide else None),
+                      okp or ('the moved token is only known to be in trees.PUNCT (%s): a comma, period or dash next to the phrase '
+                              'is pulled in as well' % wide if wide else 'no membership test of the moved token recognised'),
+                      construct='symsel:' + unparse(d_.ast)[:50], line=cfg.nodes[d_.node].lineno))
     # the anchors: with the relc option the selection is the plain selection plus the tokens before a relative pronoun
     from ..core import split_assumes
     for e in evs[:1]:
@@ -622,6 +658,40 @@ def r_leafguard(prog, tier):
             else:
                 obs.append(Ob('R-LEAFGUARD', f.fq, 'every node, tokens included, has its label examined for a collapsed chain', True,
                               'no return comes before the search for `+`', construct='leaf-uncollapse', line=f.node.lineno))
+    # a chain A+B+C comes apart label by label: the part that stays on the node the loop looks at again must be the part
+    # that can still hold a `+` (first `+` and the rest to the right, or last `+` and the rest to the left)
+    if f is not None:
+        cfg = f.cfg
+        for lp in [t for t in cfg.nodes if t.kind == 'test' and isinstance(t.owner, ast.While) and "'+'" in unparse(t.ast).replace('"', "'")]:
+            again = None
+            for x in ast.walk(lp.ast):
+                if isinstance(x, ast.Subscript) and unparse(x).endswith(".data['label']"):
+                    again = unparse(x)
+            if again is None:
+                continue
+            for m in cfg.eval_nodes():
+                if not (m.kind == 'stmt' and isinstance(m.ast, ast.Assign) and unparse(m.ast.targets[0]) == again and lp.id in m.loops
+                        and isinstance(m.ast.value, ast.Subscript) and isinstance(m.ast.value.slice, ast.Slice)):
+                    continue
+                sl = m.ast.value.slice
+                side = 'right' if (sl.lower is not None and sl.upper is None) else ('left' if (sl.lower is None and sl.upper is not None) else None)
+                pos = sl.lower if side == 'right' else sl.upper
+                names = [y.id for y in ast.walk(pos) if isinstance(y, ast.Name)] if pos is not None else []
+                how = None
+                for nm_ in names:
+                    for (_, dv_) in name_defs(f, nm_):
+                        if isinstance(dv_, ast.Call) and isinstance(dv_.func, ast.Attribute) and dv_.func.attr in ('find', 'index', 'rfind', 'rindex') \
+                                and dv_.args and isinstance(dv_.args[0], ast.Constant) and dv_.args[0].value == '+':
+                            how = 'last' if dv_.func.attr.startswith('r') else 'first'
+                if side is None or how is None:
+                    continue
+                good = (how, side) in (('first', 'right'), ('last', 'left'))
+                n += 1
+                obs.append(Ob('R-LEAFGUARD', f.fq, 'a collapsed chain of any length is taken apart completely', good,
+                              'cut at the %s `+`, the loop goes on with the %s part' % (how, side) if good else
+                              'the label is cut at the %s `+` and the loop goes on with the %s part (`%s`), which holds no `+` any more: '
+                              'of A+B+C the new node keeps `A+B` for good - only the lowest label of a longer chain is restored'
+                              % (how, side, unparse(m.ast)[:50]), construct='uncollapse-side', line=m.lineno))
     # the in-order oracle closes every node exactly once: PJ-<label> and REDUCE are emitted outside every loop
     try:
         f = prog.func('transitions', '_inorder')
@@ -637,8 +707,13 @@ def r_leafguard(prog, tier):
                     if tag in txt:
                         n += 1
                         once = not m.loops and cfg.postdominates(m.id, cfg.entry)
+                        # positive evidence only in the recursive form (one call per node) with the emission in a loop over
+                        # the children; an agenda loop visits many nodes and is not modelled
+                        recursive = any(isinstance(c_, ast.Call) and unparse(c_.func).split('.')[-1] == f.node.name
+                                        for c_ in walk_own(f.node))
+                        per_child = bool(m.loops) and recursive and all(cfg.nodes[l_].kind == 'iter' for l_ in m.loops)
                         obs.append(Ob('R-LEAFGUARD', f.fq, 'the in-order oracle emits %s once per node' % tag.rstrip('-'),
-                                      True if once else (False if m.loops else None),
+                                      True if once else (False if per_child else None),
                                       'outside every loop, on every path' if once else
                                       '`%s` sits inside `%s`: it is emitted once per further child - never for a unary node, too often '
                                       'for a node with three or more children' % (unparse(m.ast)[:50],
@@ -744,7 +819,7 @@ def r_nodeline(prog, tier):
         obs.append(Ob('R-NODELINE', f.fq, 'a line is a constituent line iff its word field is `#NNN`', ok, why,
                       construct='nodeline:' + unparse(n.ast)[:60], line=n.lineno))
     if not found:
-        raise Unrecognised('export reader: node-line test (`#` + digits) not found')
+        raise Unrecognised('export reader: node-line test (`#` + digits) not found', partial=obs)
     # export 3 or 4: decided by what stands in the fifth column (a parent number = export 3, no lemma column), not by the
     # number of columns - lines may carry secondary edges and comments after the parent number
     g = prog.func('treeinput', 'export_parse_line')
